@@ -76,7 +76,8 @@ RAWS5 = [[{"e0"}, {"e1"}, {"e2"}, {"e3"}, {"e4"}], [{"e4"}, {"e0", "e1"}], [{"e2
 
 def _feature(cons, needle: str):
     for k, v in cons.attrs["_att"].items():
-        if needle in str(k):
+        text = str(getattr(k, "attrs", {}).get("value", k)) if hasattr(k, "attrs") else str(k)
+        if needle in text:
             return v
     return None
 
